@@ -194,7 +194,25 @@ class Builder(object):
     def container(self, notes):
         """notes: list of (name, octave) -> (NoteContainer, model list as actually held by the container)"""
         nc = self.NoteContainer([self.Note(n, o) for (n, o) in notes])
+        self.looked_at(nc)
         return nc, [(x.name, x.octave) for x in nc.notes]
+
+    def looked_at(self, nc):
+        """what a program does with a chord before it prints it: read-only looks, some of which stop early (an unequal
+        comparison, a search that finds its note, a loop that breaks).  None of this may show in the export."""
+        k = len(nc.notes)
+        if k == 0:
+            return
+        other = self.NoteContainer()
+        other.notes = [self.Note("CDEFGAB"[i % 7], i // 7) for i in range(k)]     # same size, no common pitch
+        try:
+            nc == other
+            other == nc
+            for _n in nc:
+                break
+            nc[0], nc[-1], len(nc), (nc.notes[0] in nc), nc.get_note_names()
+        except Exception:  # noqa  (a failure here is C12's business; the export checks below are what counts)
+            pass
 
     def bar(self, key, meter, entries, rest_as_empty_container=False):
         """entries: [(notes, spec, number)]; notes None = place_rest, [] = an empty NoteContainer (also a rest).
